@@ -48,6 +48,8 @@ class Turnstile(object):
         self.cv = threading.Condition()
         self.done = set()
         self.stuck = False
+        import time as _t
+        self.last_progress = _t.time()
 
     def _current(self):
         while self.pos < len(self.schedule) and self.schedule[self.pos] in self.done:
@@ -60,16 +62,22 @@ class Turnstile(object):
                 cur = self._current()
                 if cur is None or cur == tid:
                     break
-                if not self.cv.wait(timeout=20):
+                self.cv.wait(timeout=2)
+                import time as _t
+                if _t.time() - self.last_progress > 60:      # nobody has taken a turn for a minute: not a slow machine
                     self.stuck = True
                     return
             if cur == tid:
                 self.pos += 1
+                import time as _t
+                self.last_progress = _t.time()
                 self.cv.notify_all()
 
     def finish(self, tid):
         with self.cv:
             self.done.add(tid)
+            import time as _t
+            self.last_progress = _t.time()
             self.cv.notify_all()
 
 
